@@ -55,7 +55,12 @@ pub const EXTRAS: &[&str] = &[
 ];
 
 pub fn gen_case(t: &mut Tape, hazard: Option<&'static str>, hazard_names: bool) -> Case {
+    gen_case_cfg(t, hazard, hazard_names, false)
+}
+
+pub fn gen_case_cfg(t: &mut Tape, hazard: Option<&'static str>, hazard_names: bool, append_boost: bool) -> Case {
     let mut cfg = GenCfg::general();
+    cfg.append_boost = append_boost;
     cfg.bias = *t.pick(&[Bias::General, Bias::Frame, Bias::Sort, Bias::Window]);
     if let Some(h) = hazard {
         cfg.hazards = vec![h];
@@ -508,6 +513,8 @@ pub fn run_c05(ctx: &Ctx) -> i32 {
         o.nontrivial = o.classes.iter().any(|k| k == "column_exclusion_emitted");
         o
     });
+    // set operations: appends of simple inputs followed by projections / derives / exclusions
+    ctx.tape_search("append-then-project", ctx.n(3_000, 100_000), 450, |t| gen_case_cfg(t, None, false, true), |c| check(c, &ctx.known, Mode::C05, false));
     for h in HAZ_C05 {
         ctx.tape_search(&format!("hazard/{h}"), ctx.n(300, 10_000), 450, |t| gen_case(t, Some(h), false), |c| {
             let mut o = check(c, &ctx.known, Mode::C05, true);
